@@ -168,7 +168,7 @@ Definition pc_trans (e : event) (p p' : ipc) : bool :=
   | EDepWait _ _, IDeps _, (IDeps _ | IBlocked _ _ _ _) => true
   | EDepDone _ true, IBlocked _ _ _ _, IDeps _ => true
   | EDepDone _ false, IBlocked _ _ _ _, ISkipDecided => true
-  | ESkip, ISkipDecided, IEnding SSkipped _ => true
+  | ESkip, ISkipDecided, IEnding SSkipped c => Z.eqb c 1
   | ERunChecked _, IDeps _, (IRunRet _ | IEnding SError _ | IPreStart) => true
   | EStarted, IPreStart, IPreLaunch => true
   | ELaunch _, IStateSet, (IAlive | IEnding SError _) => true
@@ -180,15 +180,15 @@ Definition pc_trans (e : event) (p p' : ipc) : bool :=
   | EBackoffCancelled, IBackoff _, IEnding SCompleted _ => true
   | ERunReturned _, IRunRet _, IDoneReg _ => true
   | EInstDone, IDoneReg _, IProjEnd _ false => true
-  | EExitTrigger _, IProjEnd _ _, ITriggered _ => true
+  | EExitTrigger c0, IProjEnd c _, ITriggered c' => Z.eqb c0 c && Z.eqb c c'
   | EExitCodeSet _, ITriggered _, ILeaving => true
   | EInstExit, (IProjEnd _ _ | ILeaving), IWgDone => true
   | EInstGone, IWgDone, IGone => true
   | EState _ SRunning, IPreLaunch, IStateSet => true
   | EState _ SRestarting, IWillRestart _, IRestarting _ => true
-  | EState _ s0, IInEnd s1 _ false, IInEnd s2 _ true => status_eqb s0 s1 && status_eqb s1 s2
-  | EProcEnd _ _, IEnding s1 _, IInEnd s2 _ false => status_eqb s1 s2
-  | EProcEnded _ _, IInEnd SSkipped _ true, IProjEnd _ true => true
+  | EState _ s0, IInEnd s1 c false, IInEnd s2 c' true => status_eqb s0 s1 && status_eqb s1 s2 && Z.eqb c c'
+  | EProcEnd _ _, IEnding s1 c, IInEnd s2 c' false => status_eqb s1 s2 && Z.eqb c c'
+  | EProcEnded _ _, IInEnd SSkipped c true, IProjEnd c' true => Z.eqb c c'
   | EProcEnded _ _, IInEnd s1 _ true, IRunRet _ => negb (status_eqb s1 SSkipped)
   | _, _, _ => false
   end.
@@ -317,7 +317,8 @@ Ltac own_close :=
     [ eassumption | eassumption
     | intros; unfold set_pc, end_finish, write_status; rewrite ?insts_upd_inst2; autorewrite with sup; reflexivity
     | cbn; destruct_matches; reflexivity
-    | match goal with E : pc _ = _ |- _ => rewrite E end; cbn; destruct_inner; cbn; rewrite ?status_eqb_refl; reflexivity ]
+    | match goal with E : pc _ = _ |- _ => rewrite E end; cbn; destruct_inner; cbn; rewrite ?status_eqb_refl, ?Z.eqb_refl;
+      try reflexivity; split_andb; subst; rewrite ?Z.eqb_refl; reflexivity ]
   | apply keep_pcQ; [reflexivity|inst_rel_close] ].
 
 Lemma step_own_pc s th e s' : step_own s th e = Some s' -> inst_rel (pcQ s th e) s s'.
